@@ -251,6 +251,50 @@ pub fn corpus_cases() {
   }
 }
 
+
+/// exact non-zero-delay cases: arithmetic axes with common step h (signal x0 + s h, idler x0 + k h + r i h) and the delay
+/// m0 * atan(4/3) / h, for which every phase factor is a power of (3 + 4i)/5 (see coq/Model/C10_Pyth.v)
+fn pyth_cases(rng: &mut Rng, ncases: usize) {
+  let list = setups();
+  let integrator = Integrator::default();
+  let phi0 = (4.0f64 / 3.0).atan();
+  // degenerate setups only: the idler axis is an offset of the signal axis by a few steps
+  let usable: Vec<(&str, SPDC)> = list
+    .iter()
+    .filter_map(|(name, cfg)| build_setup(cfg).ok().map(|s| (*name, s)))
+    .filter(|(_, s)| (*(s.signal.frequency() / (RAD / S)) - *(s.idler.frequency() / (RAD / S))).abs() < 1e-6 * *(s.signal.frequency() / (RAD / S)))
+    .collect();
+  if usable.is_empty() {
+    return;
+  }
+  for case in 0..ncases {
+    let (name, spdc) = &usable[case % usable.len()];
+    let spdc = spdc.clone();
+    let n = 2 + (case / usable.len()) % 3;
+    let k = [0i64, 0, 1, -1, 2][rng.below(5)];
+    let r = [1i64, 1, 2][rng.below(3)];
+    let m0 = [1i64, 2, -1, 3, -2][rng.below(5)];
+    let ws = *(spdc.signal.frequency() / (RAD / S));
+    let d = rng.log_range(2e-4, 3e-3) * ws;
+    let h = 2.0 * d / (n as f64 - 1.0);
+    let x0 = ws - d - (if k > 0 { 0.5 * k as f64 * h } else { 0.0 });
+    let ls = (x0, x0 + (n as f64 - 1.0) * h, n);
+    let y0 = x0 + k as f64 * h;
+    let li = (y0, y0 + r as f64 * ((n as f64 - 1.0) * h), n);
+    let dt = m0 as f64 * phi0 / h;
+    let range = space(ls, li);
+    let s1 = spdc.clone();
+    let series = guarded(move || s1.hom_two_source_rate_series(vec![dt * S], range, integrator));
+    let sp = spdc.joint_spectrum(integrator);
+    let arrays = eight(&sp, &sp, ls, li, ls, li);
+    emit(json!({
+      "kind": "pyth", "setup": name, "n": n, "k": k, "r": r, "m0": m0, "x0": fx(x0), "h": fx(h), "dt": fx(dt),
+      "ls": [fx(ls.0), fx(ls.1)], "li": [fx(li.0), fx(li.1)],
+      "series": vec3(series), "arrays": arrays.iter().map(|a| cjson(a)).collect::<Vec<_>>(),
+    }));
+  }
+}
+
 pub fn run(args: &[String]) {
   if args.first().map(|s| s.as_str()) == Some("corpus") {
     corpus_cases();
@@ -263,4 +307,6 @@ pub fn run(args: &[String]) {
   let mut rng = Rng::new(seed);
   single_cases(&mut rng, ncases, max_side);
   pair_cases(&mut rng, npairs, max_side);
+  let npyth = arg_u64(args, 4, 0) as usize;
+  pyth_cases(&mut rng, npyth);
 }
